@@ -6,7 +6,8 @@ import PdModel.Proto
 * `starttag tag name value` (docutils start tag with one attribute)   → `ok <s'>`
 * `sigdefault s` (`flatten(format_signature(f))` for `def f(a=<str s>)`), `quote s`, `url <0|1> page (anchor|-)`,
   `taglinkhref page url`, `starttagclass tag v`, `starttaghref v`, `valididcss s`   → `ok <s'>`
-* `ismath <tree>` (`_is_math_html` on the parsed fragment) → `true|false`; `sigintrospected repr` → `ok <s'>`
+* `ismath <tree>` (`_is_math_html` on the parsed fragment; `ismathold` = before 00f0a02) → `true|false`;
+* `directivefree <tnode>` (`_refuse_template_directives`) → `ok` | `ValueError`; `sigintrospected repr` → `ok <s'>`
 * `unescape s`                                                 → `ok <s'>` | `malformed`
 * `html2stan s`  (markup-free html → `flatten(html2stan(s))`)  → `ok <s'>` | `SAXParseException`
 * `doublepath s` (text → docutils `encode` → `html2stan` → flatten) → `ok <s'>` | `SAXParseException`
@@ -53,6 +54,25 @@ def parseTree : Nat → List String → Option (Stan × List String)
         kids f rest (t :: acc)
     let (cs, rest2) ← kids (rest1.length + 1) rest1 []
     some (.tag nm attrs cs, rest2)
+  | _, _ => none
+
+/-- `t` text, `o` other, `s` slot, `( name <0|1 render> <0|1 text attrs> child… )` -/
+def parseTNode : Nat → List String → Option (TNode × List String)
+  | 0, _ => none
+  | _+1, "t" :: rest => some (.text, rest)
+  | _+1, "o" :: rest => some (.other, rest)
+  | _+1, "s" :: rest => some (.slot, rest)
+  | fuel+1, "(" :: name :: r :: a :: rest => do
+    let nm ← Proto.decodeStr name
+    let rec kids (f : Nat) (toks : List String) (acc : List TNode) : Option (List TNode × List String) :=
+      match f, toks with
+      | 0, _ => none
+      | _, ")" :: rest => some (acc.reverse, rest)
+      | f+1, toks => do
+        let (t, rest) ← parseTNode fuel toks
+        kids f rest (t :: acc)
+    let (cs, rest2) ← kids (rest.length + 1) rest []
+    some (.tag nm (r == "1") (a == "1") cs, rest2)
   | _, _ => none
 
 def str1 (f : List Char → String) : List String → String
@@ -138,6 +158,14 @@ def handle (args : List String) : String :=
   | "ismath" :: toks =>
     match parseTree (toks.length + 1) toks with
     | some (t, []) => showB (isMathHtml t)
+    | _ => "bad-op"
+  | "ismathold" :: toks =>
+    match parseTree (toks.length + 1) toks with
+    | some (t, []) => showB (isMathHtmlOld t)
+    | _ => "bad-op"
+  | "directivefree" :: toks =>
+    match parseTNode (toks.length + 1) toks with
+    | some (t, []) => if directiveFree t then "ok" else "ValueError"
     | _ => "bad-op"
   | "sigintrospected" :: r => str1 (fun s => okStr (formatSigIntrospected s)) r
   | "sanitise" :: r => str1 (fun s => okStr (sanitise true s)) r
